@@ -7,9 +7,12 @@
 //     command_interface.Command, and T's own `func (c *T) IsAndX() bool { return true|false }` if any
 //   - command_interface.go           `func (c *Command) IsAndX() bool { return false }` (the inherited default)
 //   - commands/0.command_casting.go  the two factories: one `switch <param> { case codes.NAME: return NewT(), nil
-//     … default: return nil, <call> }` each
+//     … default: return nil, <call> }` each, or the same finite map code -> constructor kept in an unexported
+//     package-level table that the factory looks up (smb_dispatch_table.go, D1–D5: map or [256]array literal, map
+//     filled in init(), lookup in the factory or in a helper, entries `func() … { return NewT() }`)
 //
-// Any other shape is an error naming file and line.
+// The (code, type) pairs of a factory are emitted sorted by code: the keys are distinct constants in every accepted
+// shape, so the order in which the source lists them has no meaning.  Any other shape is an error naming file and line.
 package main
 
 import (
@@ -140,6 +143,7 @@ func smbDispatch(repo string) (string, any, error) {
 	ownAndX := map[string]bool{}
 	embeds := map[string]bool{}
 	var casting *ast.File
+	var pkgFiles []*ast.File
 	for _, e := range entries {
 		n := e.Name()
 		if e.IsDir() || !strings.HasSuffix(n, ".go") || strings.HasSuffix(n, "_test.go") {
@@ -149,6 +153,7 @@ func smbDispatch(repo string) (string, any, error) {
 		if err != nil {
 			return "", nil, err
 		}
+		pkgFiles = append(pkgFiles, f)
 		if n == "0.command_casting.go" {
 			casting = f
 			continue
@@ -259,6 +264,7 @@ func smbDispatch(repo string) (string, any, error) {
 	sort.Strings(names)
 
 	// ---- the two factories ---------------------------------------------------------------------
+	tables := &sdPkg{fset: fset, files: pkgFiles, constVal: constVal, byCtor: byCtor, claimed: map[*ast.Ident]bool{}, tables: map[string]bool{}}
 	factory := func(fn string) ([]sdCase, error) {
 		for _, d := range casting.Decls {
 			fd, ok := d.(*ast.FuncDecl)
@@ -269,11 +275,19 @@ func smbDispatch(repo string) (string, any, error) {
 				return nil, fmt.Errorf("%s: %s: expected one parameter", pos(fd), fn)
 			}
 			param := fd.Type.Params.List[0].Names[0].Name
-			if len(fd.Body.List) != 1 {
-				return nil, fmt.Errorf("%s: %s: body is not a single switch statement", pos(fd), fn)
+			var sw *ast.SwitchStmt
+			if len(fd.Body.List) == 1 {
+				sw, _ = fd.Body.List[0].(*ast.SwitchStmt)
 			}
-			sw, ok := fd.Body.List[0].(*ast.SwitchStmt)
-			if !ok || sw.Init != nil {
+			if sw == nil { // not the switch shape: a table of constructors (smb_dispatch_table.go) or an error
+				cs, err := tables.tableFactory(fd, param, fn)
+				if err != nil {
+					return nil, err
+				}
+				sort.SliceStable(cs, func(i, j int) bool { return cs[i].Code < cs[j].Code })
+				return cs, nil
+			}
+			if sw.Init != nil {
 				return nil, fmt.Errorf("%s: %s: body is not a plain switch statement", pos(fd), fn)
 			}
 			if tag, ok := sw.Tag.(*ast.Ident); !ok || tag.Name != param {
@@ -338,6 +352,7 @@ func smbDispatch(repo string) (string, any, error) {
 			if !hasDefault {
 				return nil, fmt.Errorf("%s: %s: switch has no default clause", pos(sw), fn)
 			}
+			sort.SliceStable(out, func(i, j int) bool { return out[i].Code < out[j].Code })
 			return out, nil
 		}
 		return nil, fmt.Errorf("function %s not found in 0.command_casting.go", fn)
@@ -348,6 +363,9 @@ func smbDispatch(repo string) (string, any, error) {
 	}
 	resp, err := factory("CreateResponseCommand")
 	if err != nil {
+		return "", nil, err
+	}
+	if err := tables.unclaimed(); err != nil {
 		return "", nil, err
 	}
 
@@ -395,14 +413,14 @@ func smbDispatch(repo string) (string, any, error) {
 	}
 	w("]\n\n")
 	emitCases := func(name, fn string, cs []sdCase) {
-		w("/-- the `switch` of `%s` in source order: (case value, type of the constructor it returns) -/\n", fn)
+		w("/-- the dispatch of `%s` (its `switch`, or its table of constructors), sorted by code: (code, type of the constructor returned) -/\n", fn)
 		w("def %s : List (UInt8 × Kind) := [\n", name)
 		for i, c := range cs {
 			sep := ","
 			if i == len(cs)-1 {
 				sep = ""
 			}
-			w("  (%d, .%s)%s  -- case codes.%s: return %s(), nil\n", c.Code, c.Kind, sep, c.Const, c.Ctor)
+			w("  (%d, .%s)%s  -- codes.%s: %s()\n", c.Code, c.Kind, sep, c.Const, c.Ctor)
 		}
 		w("]\n\n")
 	}
